@@ -192,11 +192,14 @@ def start_epoch_is_immutable(ctx, P, rule):
     for f in P.fns.values():
         if "::tests::" in f.id:
             continue
+        ctor = f.kind != "closure" and f.local_ty(0).endswith("transaction::manager::TxInfo")     # builds and returns a TxInfo by value
         for b in f.blocks:
             if b["cl"]:
                 continue
             for pl, rv, ln in b["s"]:
                 if rv[0] == "dead":
+                    continue
+                if ctor and not (rv[0] == "agg"):
                     continue
                 fl = [p for p in pl[1:] if isinstance(p, str) and p.startswith("f:start_epoch:") and p.endswith("transaction::manager::TxInfo")]
                 if fl or (rv[0] == "ref" and rv[1] == "mut" and any(isinstance(p, str) and p.startswith("f:start_epoch:") and p.endswith("transaction::manager::TxInfo") for p in rv[2][1:])):
